@@ -41,3 +41,12 @@ def obligations(chk, prop, libs, own_mods=(), own_drivers=()):
 
 def finish(chk):
     finish_obligations(chk)
+
+
+def run_lib(lib, chk, prop):
+    """Run a family library for a property it contributes to."""
+    mods = getattr(lib, "MODS", {})
+    if prop not in mods and prop not in getattr(lib, "PROPS", ()):
+        chk.notes.append("%s contributes nothing to %s" % (lib.__name__, prop))
+        return
+    lib.run_family(chk, prop)
